@@ -106,7 +106,10 @@ def get_yaml_default_dumper():
 def yaml_load(stream):
     import yaml
 
-    value = yaml.load(stream, Loader=get_yaml_default_loader())
+    try:
+        value = yaml.load(stream, Loader=get_yaml_default_loader())
+    except ValueError as ex:  # raised by the constructors of explicitly tagged scalars, e.g. "!!int abc"
+        raise yaml.YAMLError(str(ex)) from ex
     if isinstance(value, dict) and value and all(v is None for v in value.values()):
         if len(value) == 1 and stream.strip() == next(iter(value.keys())) + ":":
             value = stream
